@@ -52,7 +52,7 @@ def api(fn, kind, err="result", coll=None, extra="", one_tx=True, commit=True, n
                 # an operation that found nothing to do may succeed without a commit, provided it wrote nothing
                 emit(f"//@   ensures[C05] commit-on-success: (=> (= {err} vnil) (or (= (st commits) (+ (old (st commits)) 1)) (and (= (st commits) (old (st commits))) (= (st nWrites) (old (st nWrites))))))")
             elif commit:
-                emit(f"//@   ensures[C05] commit-on-success: (=> (= {err} vnil) (= (st commits) (+ (old (st commits)) 1)))")
+                emit(f"//@   ensures[C05,C19] commit-on-success: (=> (= {err} vnil) (= (st commits) (+ (old (st commits)) 1)))")
         if coll:
             emit(f"//@   ensures[C13,C19] keyspace: {keyspace(coll)}")
     else:
@@ -231,7 +231,7 @@ emit(f"""// The planner's choice of index ranges: every range query it returns c
 
 //@ func tryToSelectIndex
 //@   use (store ranges criteria planner)
-//@   tags (C01 C02 C04 C08 C09 C20)
+//@   tags (C01 C02 C04 C08 C09 C14 C20)
 //@   ghost d Doc
 //@   requires idxs: {idxs('indexes','(st opTx)')}
 //@   requires[C02,C01,C20] norm: (=> (not (= (@ q criteria) vnil)) (cwf (@ q criteria)))
@@ -243,7 +243,7 @@ emit(f"""// The planner's choice of index ranges: every range query it returns c
 //@        (= (@ (@ result0 planNodeBase) next) vnil) {planok('result0')}))
 //@   ensures none: (=> (= result0 null) (not result1))
 // the in-memory sort may be skipped only when there is exactly one sort option and the scan runs over the index on that field, in that direction
-//@   ensures[C08,C02] sorted: (=> result1 (and (= (len (old (@ q sortOpts))) (bv 1))
+//@   ensures[C08,C02,C14] sorted: (=> result1 (and (= (len (old (@ q sortOpts))) (bv 1))
 //@        (not (= (@ result0 idxQuery) vnil))
 //@        (= (@ (cast (rval (@ (cast (rval (@ result0 idxQuery)) index.RangeIndexQuery) Idx)) index.rangeIndex) field) (old (@ (idx (@ q sortOpts) (bv 0)) Field)))
 //@        (= (@ (cast (rval (@ result0 idxQuery)) index.RangeIndexQuery) Reverse) (bvslt (old (@ (idx (@ q sortOpts) (bv 0)) Direction)) (bv 0)))))
